@@ -2,6 +2,8 @@
     pub(super) fn pow(ring: &ConstLargeDivisor, raw: &ReducedLarge, exp: &UBig) -> ReducedLarge
     /*@
         requires ring_full(ring), red_ok(raw, ring),
+            // a ConstLargeDivisor is only built from a Buffer (div_const.rs:145): its length is within Buffer::MAX_CAPACITY
+            ring.normalized_divisor@.len() <= (usize::MAX as int) / (WORD_BITS as int),
         ensures red_ok(&ret, ring),
             // C13: reduce(a).pow(e) == reduce(a^e) for EVERY exponent e >= 0, residue in [0, m)
             resid(&ret, ring) == ipow(resid(raw, ring), exp.v()) % modulus(ring),
